@@ -10,7 +10,7 @@ PROPERTY = 'C04'
 LEVEL = 'exploration'
 RULE = ('ASTs of the documented graph grammar (no multipliers): exhaustive over all ordered trees with <= N nodes x '
         'edge-order symbols {implicit . - =} x trailing-branch spelling x one ring bond (every non-adjacent pair x '
-        '{none . =} x digit/%nn), plus seeded random ASTs (<= 25/40 nodes, depth <= 3/5, <= 4 rings, annotations). '
+        '{none . =} x digit/%nn), plus seeded random ASTs (<= 25/40 nodes, depth <= 3/5, <= 4 rings, annotations) and hub cases (one node with 8-16 %nn ring bonds to later nodes, 24-80 characters of marker text). '
         'Each is unparsed, read by the real read_cgsmiles and compared EXACTLY (keys, names, annotation values, '
         'edges, orders) with the graph an independent reference builds from the AST. distinct = distinct '
         '(feature set, node count, edge count) classes; non-trivial = at least 2 nodes.')
@@ -50,6 +50,31 @@ def _with_ring(ast, i, j, o, pct):
     return a
 
 
+def hub_case(rng):
+    """one node with 8-16 ring bonds to later nodes (a cross-linker, a dendrimer core): its marker text is 24-80 characters"""
+    ast = G.random_ast(rng, rng.choice([24, 36, 60]), max_depth=2, p_branch=0.2, p_bond=0.2, n_rings=0)
+    flat = G._flat(ast)
+    idx = {id(e): i for i, (e, _, _, _) in enumerate(flat)}
+    adj = set()
+    for i, (e, d, u, p) in enumerate(flat):
+        if p is not None:
+            adj.add((min(i, idx[id(p)]), max(i, idx[id(p)])))
+    plain = [i for i, (e, d, u, p) in enumerate(flat) if e['mult'] == 1 and not u and not any(b['mult'] > 1 for b in e['branches'])]
+    if len(plain) < 12:
+        return None
+    i = rng.choice(plain[:max(1, len(plain) // 3)])
+    later = [j for j in plain if j > i and (i, j) not in adj]
+    if len(later) < 8:
+        return None
+    js = rng.sample(later, min(len(later), rng.randint(8, 16)))
+    ms = rng.sample(range(10, 100), len(js))
+    sym = rng.choice([(None,), (None, 2, 3), (2, 3, 0)])
+    for j, m in zip(js, ms):
+        flat[i][0]['rings'].append((rng.choice(sym), m, True))
+        flat[j][0]['rings'].append((None, m, True))
+    return ast
+
+
 def cases(seed, tier, shard, nshards):
     cfg = SIZES[tier]
     k = 0
@@ -79,6 +104,15 @@ def cases(seed, tier, shard, nshards):
             continue
         made += 1
         yield {'kind': 'rand', 'ast': ast, 'features': sorted(G.features(ast))}
+    for _ in range(max(2, cfg['rand'] // (40 * nshards))):
+        ast = hub_case(rng)
+        if ast is None:
+            continue
+        try:
+            G.denote(ast)
+        except G.RefSyntaxError:
+            continue
+        yield {'kind': 'hub', 'ast': ast, 'features': sorted(G.features(ast)) + ['hub_node_with_8plus_ring_markers']}
     # stress: long chains with many rings
     if shard == 0:
         for size in ([60, 150] if tier == 'quick' else [60, 150, 400, 1000]):
